@@ -81,7 +81,7 @@ static Bytes oneshot(int fam, int alg, const Bytes &key, const Bytes &nonce, con
 
 template <class A>
 static std::string run_c_session(int alg, const Bytes &key, Bytes model, const std::vector<NOp> &ops) {
-    typename A::state_t *s = (typename A::state_t *)malloc(sizeof(typename A::state_t));
+    typename A::state_t *s = (typename A::state_t *)xalloc(sizeof(typename A::state_t));
     memset(s, 0xA5, sizeof(*s));
     Buf k(key);
     { Buf n(model); A::init(s, n.p, k.p); }
@@ -115,7 +115,7 @@ static std::string run_c_session(int alg, const Bytes &key, Bytes model, const s
         if (!err.empty()) break;
     }
     A::free_(s);
-    free(s);
+    xfree(s, sizeof(typename A::state_t));
     return err;
 }
 
